@@ -97,7 +97,15 @@ def sig_pure_with_recorded_history(v: dict) -> bool:
 
 
 def sig_start_step_with_raised_events(v: dict) -> bool:
-    return sig_start_step(v) and sum(1 for e in (v.get("out") or []) if e[0] == "enq") > 0
+    """start(): the async engine took an eventless transition BEFORE it processed the first event
+    raised by the entry actions, while the sync engine processed a raised event during start()."""
+    if not sig_start_step(v):
+        return False
+    sync_processed = any(e[0] == "event" for e in (v.get("out") or []))
+    aout = v.get("async_out") or []
+    first_ev = next((i for i, e in enumerate(aout) if e[0] == "event"), len(aout))
+    settled_first = any(e[0] == "select" and e[2] == "settle" and e[3] for e in aout[:first_ev])
+    return sync_processed and settled_first
 
 
 SIGNATURES: Dict[str, Callable[[dict], bool]] = {
